@@ -93,6 +93,13 @@ type Contracts struct {
 	LemmaPkg    map[*Clause]string
 	Defaults    []defaultRule
 	Files       []string
+	Guarded     map[string]guardDecl // "pkgpath.Type.field" -> mutex field
+}
+
+type guardDecl struct {
+	Mutex string
+	Props []string
+	Where string
 }
 
 type defaultRule struct {
@@ -105,7 +112,7 @@ func newContracts() *Contracts {
 	return &Contracts{
 		Funcs: map[string]*FuncContract{}, GhostVars: map[string]*GhostDecl{}, GhostFields: map[string]*GhostDecl{},
 		SpecFuncs: map[string]*SpecFunc{}, Preds: map[string]*SpecFunc{},
-		AxiomPkg: map[*Clause]string{}, LemmaPkg: map[*Clause]string{},
+		AxiomPkg: map[*Clause]string{}, LemmaPkg: map[*Clause]string{}, Guarded: map[string]guardDecl{},
 	}
 }
 
@@ -262,6 +269,10 @@ func (cs *Contracts) loadContractFile(path, pkgPath string, imports map[string]s
 				cs.Defaults = append(cs.Defaults, defaultRule{Kind: fields[1], Pat: re, Src: fmt.Sprintf("%s:%d", path, i+1)})
 			}
 			lastClause = nil
+		case head == "guarded_by" && len(fields) >= 3:
+			// guarded_by Type.field mutexField [Cnn ...]
+			cs.Guarded[pkgPath+"."+fields[1]] = guardDecl{Mutex: fields[2], Props: fields[3:], Where: fmt.Sprintf("%s:%d", path, i+1)}
+			cur, lastClause = nil, nil
 		case head == "ghost" && len(fields) >= 4 && fields[1] == "var":
 			d := &GhostDecl{Name: fields[2], TypeTxt: strings.Join(fields[3:], " "), PkgPath: pkgPath, File: path, Line: i + 1}
 			if old, dup := cs.GhostVars[d.Name]; dup {
